@@ -26,8 +26,10 @@ embedded flag. Not in the fragment (the driver answers `outside`, the generator 
 to pointer/`[]byte`/interface, embedded fields that are not structs or pointers to structs, named
 non-struct types, methods (Simplifier, Genericer, Marshaler, time.Time), field names that do not
 start with an ASCII letter, integers outside int64 (`uint64` ≥ 2^63: alt converts to int64), floats
-whose 32-bit and 64-bit shortest texts differ, typed nil pointers held by an interface, and field
-keys that collide (with each other or with the create key).
+whose 32-bit and 64-bit shortest texts differ, an interface holding a value whose data word is nil
+(a typed nil pointer or map, a one-field struct or one-element array of such: the `…NotEmpty` plan
+functions take it for a nil interface, known finding `C15-iface-nil-word`), and field keys that
+collide (with each other or with the create key).
 
 Representation. A float is the decimal TEXT `strconv.AppendFloat(…, 'g', -1, bits)` gives. A panic
 (`oj.JSON` then returns "", `Marshal` an error) is the marker leaf `panicMark` somewhere in the
